@@ -109,6 +109,8 @@ type Exec struct {
 	cellN   int
 	cellCache map[*ssa.Alloc]bool
 	usedLemmas []string
+	curLemma    *Lemma
+	curLemmaEnv *Env
 	usedContracts map[string]bool
 	replay  *replayInfo
 	curRets []Val
@@ -281,7 +283,7 @@ func (x *Exec) run(st *State, fr *Frame, b *ssa.BasicBlock, i int) {
 			if !x.noSafe {
 				x.emit(st, "safety.unreachable", lbl, "panic statement is unreachable", "false", nil, in.Pos(), fr)
 			}
-			x.paths++
+			x.bumpPath()
 			return
 		case *ssa.Call:
 			if x.call(st, fr, b, i, in, &in.Call) {
@@ -389,7 +391,7 @@ func (x *Exec) enterBlock(st *State, fr *Frame, from, to *ssa.BasicBlock) {
 			fr.vals[ph] = incoming[i]
 		}
 		x.loopInvariants(st, fr, loop, "step", false)
-		x.paths++
+		x.bumpPath()
 		return
 	}
 	// loop entry: establish, havoc, assume
@@ -408,7 +410,7 @@ func (x *Exec) enterBlock(st *State, fr *Frame, from, to *ssa.BasicBlock) {
 func (x *Exec) doReturn(st *State, fr *Frame, rets []Val, pos token.Pos) {
 	if fr.parent == nil {
 		x.atExit(st, fr, rets, pos)
-		x.paths++
+		x.bumpPath()
 		return
 	}
 	parent := fr.parent
@@ -486,7 +488,7 @@ func (x *Exec) simple(st *State, fr *Frame, in ssa.Instruction) {
 			fr.vals[in] = Val{K: KPtr, Typ: in.Type(), Ptr: &Pointer{Local: c, Elem: elem}}
 			return
 		}
-		if ss.kindOf(elem) == KOpaque {
+		if _, isIface := elem.Underlying().(*types.Interface); ss.kindOf(elem) == KOpaque && !isIface {
 			root := x.allocRoot(st, "new")
 			fr.vals[in] = Val{K: KPtr, Typ: in.Type(), Ptr: &Pointer{Heap: "", Elem: elem, Root: root, Fresh: true}}
 			return
@@ -1298,5 +1300,14 @@ func (x *Exec) anchoredUses(st *State, fr *Frame, dr *ssa.DebugRef) {
 			env.vars[k] = v
 		}
 		x.useLemma(st, env, au.E, x.con.Props)
+	}
+}
+
+// bumpPath counts a finished path; a function whose paths explode is reported as
+// outside the engine's reach (mid-level callees need contracts) instead of running forever.
+func (x *Exec) bumpPath() {
+	x.paths++
+	if x.paths > 6000 || len(x.obls) > 120000 {
+		bail("path explosion: more than %d paths / %d obligations; give callees contracts", x.paths, len(x.obls))
 	}
 }
